@@ -102,8 +102,8 @@ func c17R3R4(c *Ctx) {
 		}
 		// nobody else closes it
 		for _, f := range P.ModuleFuncs("transport") {
-			if f == fn {
-				continue
+			if f == fn || (f.Parent() == nil && P.OwnedBy(f, fn)) {
+				continue // the owner, or a local helper cut out of it (its close is judged on the owner's paths)
 			}
 			for _, cs := range closeSitesOf(f, pb.done) {
 				c.Fail("C17.R3", "close:"+pb.done.Name()+"@"+FuncName(f), P.InstrPos(cs), "the completion channel is closed outside its owner function")
